@@ -28,11 +28,21 @@ from .model import AnalysisError, Repo, repo_root
 
 
 def load_mutants(prop: str):
+    out = []
     try:
         m = importlib.import_module(f"sa.mutants.{prop.lower()}")
+        out = list(m.MUTANTS)
     except ModuleNotFoundError:
-        return []
-    return list(m.MUTANTS)
+        pass
+    try:
+        from .mutants._reverts import REVERTS
+
+        for diff, props, name in REVERTS:
+            if prop.upper() in props:
+                out.append((f"revert-fix {diff} ({name})", "fire", [("@revert", diff, "")]))
+    except ModuleNotFoundError:
+        pass
+    return out
 
 
 def _analyse(prop: str, root: Path, evdir: Path):
@@ -84,6 +94,15 @@ def _run_variant(args):
     try:
         shutil.copytree(Path(src_root) / "abtem", tmp / "abtem", ignore=shutil.ignore_patterns("__pycache__", "*.pyc"))
         for rel, old, new in edits:
+            if rel == "@revert":
+                import subprocess
+
+                diff = Path(__file__).parent / "mutants" / "reverts" / f"{old}.diff"
+                r = subprocess.run(["patch", "-R", "-p1", "--batch", "--silent", "-i", str(diff)], cwd=tmp,
+                                   capture_output=True, text=True)
+                if r.returncode != 0:
+                    return (prop, name, expect, "SKIPPED", f"reverse patch does not apply: {r.stdout[:100]}")
+                continue
             p = tmp / rel
             if not p.exists():
                 return (prop, name, expect, "SKIPPED", f"{rel} missing")
@@ -97,7 +116,8 @@ def _run_variant(args):
             import ast as _ast
 
             for rel, _, _ in edits:
-                _ast.parse((tmp / rel).read_text())
+                if rel != "@revert":
+                    _ast.parse((tmp / rel).read_text())
         except SyntaxError as e:
             return (prop, name, expect, "BROKEN-VARIANT", str(e))
         rc, keys, out = _analyse(prop, tmp, tmp / "evidence")
